@@ -12,7 +12,7 @@ PKG_B = "internal/querylog"
 def part_a(c: Check):
     th = c.thorough
     c.tlc_mc("QueryLog", "QueryLog_mc.cfg",
-             name="attribution x flags x 6 fates x 7 filter outcomes x 5 protocols x location x answer facts")
+             name="attribution x flags x 7 fates x 7 filter outcomes x 5 protocols x location x answer facts")
     c.cov["exhaustive"] = True
     for cfg, inv, what in [
         ("QueryLog_sanity.cfg", "IPIffIPLog", "client address logged regardless of the IP-log flag"),
@@ -25,7 +25,7 @@ def part_a(c: Check):
         c.tlc_mc("QueryLog", cfg, expect_violation=inv, name="sanity: " + what)
 
     out, _ = c.go_harness(PKG_A, "^TestVerifC15$", files=["c15_test.go"],
-                          env={"VERIF_REPS": 8 if th else 2, "VERIF_WORKERS": 8})
+                          env={"VERIF_REPS": 24 if th else 3, "VERIF_WORKERS": 8})
     ev = read_ndjson(out)
     reqs = [e for e in ev if e["ev"] == "req"]
     if len(reqs) < 500:
@@ -110,7 +110,7 @@ def part_b(c: Check):
              name="sanity: one buffer shared by all writers loses entries")
     rounds = [(16, 200, 0)]
     if th:
-        rounds = [(16, 300, 0), (64, 150, 0), (4, 1500, 2), (128, 60, 0), (32, 300, 4)]
+        rounds = [(16, 2000, 0), (64, 1000, 0), (4, 5000, 2), (128, 300, 0), (32, 1500, 4), (8, 4000, 0)]
     total_lines = total_writes = 0
     syscall_level = True
     for (n, per, procs) in rounds:
